@@ -176,6 +176,7 @@ func oracle(c cfg, o *vrt.Outcome) {
 			hasRestart = true
 		}
 	}
+	var firstEnd int64 = -1  // when the first invocation returned
 	var prevFirst int64 = -1 // begin of the previous invocation served from the first schedule (scripts without Restart)
 	var begins [][2]int64    // (frequency, instant) of every invocation
 	open := 0
@@ -237,7 +238,12 @@ func oracle(c cfg, o *vrt.Outcome) {
 				// the function returns, at the latest after the select fairness bound (3) of further
 				// buffered ticks: on the default schedule the old generation is dead 5 function
 				// durations after the Restart
-				if o.Cost == 0 && g.until >= 0 && t > g.until+5*int64(c.fnDur) {
+				if o.Cost == 0 && g.until >= 0 && !c.firstSlow && t > g.until+5*int64(c.fnDur) {
+					continue
+				}
+				// only the first invocation is slow: once it has returned the runner is prompt again, and it has processed
+				// every Restart requested meanwhile by the time the clock next moves
+				if o.Cost == 0 && g.until >= 0 && c.firstSlow && firstEnd >= 0 && t > g.until && t > firstEnd {
 					continue
 				}
 				if fits(g, freq, t, strict) {
@@ -255,6 +261,9 @@ func oracle(c cfg, o *vrt.Outcome) {
 			}
 		case "end":
 			open--
+			if firstEnd < 0 {
+				firstEnd = a
+			}
 		case "stopret":
 			stopped = true
 			stopClock = a
@@ -420,6 +429,13 @@ func scenariosFor(tier string) []vrt.Scenario {
 		s7 := []raterun.Schedule{{StartDelay: 0, Frequency: ms(50)}}
 		addFirstSlow(b, s7, ms(158), sl(420), stop)
 		addFirstSlow(b, s7, ms(158), sl(230), cancel)
+		// the first invocation spans the next schedule's activation and a Restart: after it the first schedule is active
+		// again for the whole start delay of the second
+		addFirstSlow(b, s2, ms(200), sl(200), restart, sl(700), stop)
+		// a later schedule with no start delay is entered at once, and the one after it after its own delay
+		s8 := []raterun.Schedule{{StartDelay: 0, Frequency: ms(100)}, {StartDelay: 0, Frequency: ms(50)}, {StartDelay: ms(170), Frequency: ms(20)}}
+		add(b, s8, 0, sl(400), stop)
+		add(b, s8, 0, sl(120), restart, sl(300), stop)
 		out = append(out, scenario(cfg{scheds: s2, fnDur: ms(30), script: []step{sl(150), restart, sl(300), stop}}).WithPlainPoints(1))
 		out = append(out, scenario(cfg{scheds: s1, fnDur: ms(30), script: []step{sl(110), stop}}).WithPlainPoints(1))
 		return out
@@ -448,6 +464,14 @@ func scenariosFor(tier string) []vrt.Scenario {
 	add(2, s6, 0, sl(330), restart, sl(630), stop)
 	add(2, s5, 0, sl(420), restart, sl(230), stop)
 	add(2, s6, 0, sl(130), restart, sl(630), stop) // Restart during the first start delay
+	for _, d := range []int{160, 200, 260} {
+		addFirstSlow(2, s2, ms(200), sl(d), restart, sl(700), stop)
+		addFirstSlow(2, s4, ms(200), sl(d), restart, sl(700), stop)
+	}
+	s8 := []raterun.Schedule{{StartDelay: 0, Frequency: ms(100)}, {StartDelay: 0, Frequency: ms(50)}, {StartDelay: ms(170), Frequency: ms(20)}}
+	add(2, s8, 0, sl(400), stop)
+	add(2, s8, ms(30), sl(400), stop)
+	add(2, s8, 0, sl(120), restart, sl(300), stop)
 	for _, fn := range []time.Duration{0, ms(30)} {
 		add(2, s5, fn, sl(520), stop)
 		add(2, s5, fn, sl(200), restart, sl(400), stop)
